@@ -121,7 +121,7 @@ Proof.
   destruct e; cbn [step]; try (intros []).
   - apply step_interest_ok.
   - unfold step_data. destruct (data_token (d_tok d)) as [[th tk]|].
-    + destruct (th =? tid s); [apply step_data_thread_ok|]. destruct (th =? nthreads s); intros [].
+    + destruct (th =? tid s); [apply step_data_thread_ok|]. intros [].
     + apply step_data_thread_ok.
   - unfold step_tick. destruct (pop_chosen _ _ _ _ _) as [pd ok]; intros [].
   - destruct n; intros [].
@@ -164,7 +164,7 @@ Proof.
   assert (T : forall t, r_st (step_data_thread s now d t) = s /\ r_outs (step_data_thread s now d t) = []).
   { intros t; unfold step_data_thread; rewrite Hg, L, (spec_code_localhost _ S); cbn; split; reflexivity. }
   destruct (data_token (d_tok d)) as [[th tk]|].
-  - destruct (th =? tid s); [apply T|]. destruct (th =? nthreads s); split; reflexivity.
+  - destruct (th =? tid s); [apply T|]. split; reflexivity.
   - apply T.
 Qed.
 
